@@ -9,6 +9,7 @@ open Streams
       sequential big-step semantics (`Streams.seqOp`), one answer token per op:
         g        GetStream            → `<id>:t` | `0:f`
         c<id>    Clear(id)            → `T` | `F` | `crash:index` | `crash:negative`
+        n<k>     Clear(-k), k ≥ 1 (negative argument, `Streams.clearNeg`; seq lines only, `smon` answers n/a)
         (thread scripts only) r = Clear(id acquired most recently by this thread and not yet
                  released through r), Available if there is none
         a        Available            → `a=<n>`
@@ -98,6 +99,11 @@ def getN : Nat → Shared → Nat → Nat → Nat → Nat → Shared × String
 def seqTok (sh : Shared) (w : String) : Option (Shared × String) :=
   if w == "s" then some (sh, showState sh.words)
   else if w.startsWith "O" then (parsePreset w).map (fun v => (presetOffset sh v, "O"))
+  else if w.startsWith "n" then
+    -- n<k> = Clear(-k), k ≥ 1 (negative argument; `Streams.clearNeg`)
+    match (w.drop 1).toNat? with
+    | some k => if k = 0 then none else let r := clearNeg sh k; some (r.1, showRet r.2)
+    | none => none
   else if w.startsWith "G" then
     match (w.drop 1).toNat? with
     | some c => some (getN c sh 0 0 0 0)
@@ -346,6 +352,8 @@ def step (cache : Cache) (ws : List String) : Cache × String :=
       | (cache', none) => (cache', "bad-op")
     | _, _ => (cache, "bad-op")
   | "smon" :: p :: ops =>
+    if ops.any (fun w => w.startsWith "n") then (cache, "n/a")   -- Clear of a negative id: excluded (KF-C08-3)
+    else
     match p.toNat?, parseSeqOps ops with
     | some proto, some l =>
       if l.contains (.op (.clear 0)) then (cache, "n/a")
